@@ -31,11 +31,12 @@ CHECKS = {
    technique="Lean 4 proof (model => executable spec predicate, for all hash functions) + model/implementation correspondence"),
  "C16": dict(
    text="Lean theorems C16_record (length 16+8n; little-endian fields read back as magic 0x55AA55AA, 1, partition address, size; zero cache entries; for all values below 2^32), "
-        "C16_record_rejects, C16_storage_image, C16_dfu_image (address dfu+i holds byte i, nothing else defined), C16_storage_checks / C16_dfu_checks (model => Spec predicate). "
+        "C16_record_rejects, C16_storage_image, C16_dfu_image (address dfu+i holds byte i, nothing else defined), C16_storage_checks / C16_dfu_checks (model => Spec predicate), "
+        "C16_dfu_file / C16_storage_file (file level: the text of both hex files, as the model of the intelhex writer produces it, reads back with the strict reader as exactly the image; IHexWrite / IHexText, all addresses and sizes below 2^32). "
         "Tie: cmd_image.main(image=update) on a grid of sizes x addresses (64 KiB, 16 MiB, 2^32 boundaries) x cache counts; both hex files are read back with the "
         "verifier's Intel-HEX reader, compared with the model image, and judged by Update.checkStorage / checkDfu.",
    design="4 C16",
-   note=COMMON_NOTE + "Domain: address + size within 32 bits. The intelhex writer's extended-address arithmetic is not proved; it is checked per file by the verifier's strict reader.",
+   note=COMMON_NOTE + "Domain: address + size within 32 bits. The intelhex writer is third-party code: it is modelled (IHexWrite.lean), the model is proved to read back, and its text is compared with the tool's file on every run (writer-model counters in the evidence); every file is also read by the verifier's strict reader.",
    technique="Lean 4 proof (byte-level layout lemmas, omega) + model/implementation correspondence"),
  "C20": dict(
    text="Lean theorems C20_order_partial (for versions with the same number of numeric fields and no explicit '.0' pre-release number, semver precedence = zero-padded "
